@@ -8,7 +8,7 @@ kind and message unmodified to the ERR writer.
 import re
 
 from engines.paths import enumerate_paths
-from engines.prog import cname, op_const, op_place, term_str, term_contains
+from engines.prog import cname, op_const, op_place, term_str, term_contains, place_fields
 from engines import tables, wire
 from engines import terms as T
 from spec import errors as SPEC
@@ -36,6 +36,11 @@ def _enum(prog):
         if a["local"] and a["kind"] == "enum" and p.endswith("ErrorKind"):
             return a
     return None
+
+
+def place_last_field(body, place):
+    fs = place_fields(place) if place.get("p") else []
+    return fs[-1] if fs else None
 
 
 def _block_const_assign(body, bb):
@@ -264,6 +269,76 @@ def run(ctx):
     # library caller: the authentication failure ERR uses the constant kind ER_ACCESS_DENIED_ERROR
     callers = prog.callers_of(r"^writers::write_err$")
     ctx.floor("C13.entry-points", "callers of the ERR writer", len([1 for b, _, _ in callers if "::tests::" not in b.path]), 4)
+
+    # ---- the ERR packet starts on a packet boundary ---------------------------------------------
+    # An error reported after some rows goes out through finish_error -> finish_inner -> QueryResultWriter::error; its bytes
+    # are appended to whatever the packet buffer holds.  Two structural obligations keep that buffer empty at that point:
+    #  (a) a row-writer call that hands a *refusal* back to the shim (an Err that is not the failure of a packet write itself)
+    #      has put nothing into the packet on that path; bytes of an unfinished row are otherwise followed by ff <code> ...
+    #  (b) finish_inner reaches its Ok return only with the pending row ended (end_row succeeded) or with no row pending
+    #      (col == 0 / no columns), whatever `complete` is.
+    ctx.rule("C13.err-on-packet-boundary", "a refusal returned to the shim leaves no bytes in the packet; finish_inner ends a pending row on every path before the ERR is written")
+    from engines.paths import classify_return
+    n_ref = 0
+    for pat in (r"^resultset::RowWriter::<'a, W>::write_col$", r"^resultset::RowWriter::<'a, W>::end_row$", r"^resultset::RowWriter::<'a, W>::write_row$"):
+        bs = prog.find(pat)
+        if not ctx.floor("C13.err-on-packet-boundary", "row writer entry %s" % pat, len(bs), 1):
+            continue
+        b = bs[0]
+        ctx.fn(b)
+        for p in enumerate_paths(b, max_visits=1):
+            if p.end != "return" or classify_return(p) != "err":
+                continue
+            W = [(pos, t) for pos, blk, t in p.calls()
+                 if any("packet::PacketConn<" in a for a in (t.get("arg_tys") or [])) and wire.classify_call(p, pos, t) is not None]
+            n_ref += 1
+            if not W:
+                ctx.ob("C13.err-on-packet-boundary", True, "", fn=b.path, construct="refusal-path", nontrivial=False)
+                continue
+            rv = p.return_value()
+            src = T.find(rv, lambda x: isinstance(x, tuple) and x[0] == "call" and not re.search(r"from_residual$|Try>::branch$|map_err$|Into<.*>>::into$|From<.*>>::from$", x[1]))
+            last = cname(W[-1][1]["func"])
+            decl = W[-1][1]["func"]["path"]
+            ok = src is not None and (src[1] == last or src[1] == decl)
+            ctx.ob("C13.err-on-packet-boundary", ok,
+                   "%s returns an error that does not come from the packet write (%s) after %d write(s) into the unfinished packet; "
+                   "an ERR reported next is appended to those bytes" % (b.path.split("::")[-1], term_str(rv)[:90], len(W)),
+                   fn=b.path, construct="refusal-after-write", callee=last, where=b.where(p.blocks[-1]),
+                   sample={"rule": "err-on-packet-boundary", "fn": b.path, "failing": src[1] if src else None})
+    ctx.floor("C13.err-on-packet-boundary", "error-return paths of the row writer", n_ref, 6)
+    fi = prog.find(r"^resultset::RowWriter::<'a, W>::finish_inner$")
+    if ctx.floor("C13.err-on-packet-boundary", "finish_inner", len(fi), 1):
+        b = fi[0]
+        ctx.fn(b)
+        from engines.paths import emptiness_of
+        n_fin = 0
+        wc_b = prog.one(r"^resultset::RowWriter::<'a, W>::write_col$")
+        wc_bin_writes = False
+        for p in enumerate_paths(wc_b, max_visits=1):
+            if any(T.is_field(T.peel(v), "is_bin") and truth for _, _, v, truth in p.decisions()) and \
+                    any(any("packet::PacketConn<" in a for a in (t.get("arg_tys") or [])) for pos, blk, t in p.calls()):
+                wc_bin_writes = True
+        for p in enumerate_paths(b):
+            if p.end != "return" or classify_return(p) == "err":
+                continue
+            # the early return of an already finished writer (however `finished` is read: a load, mem::replace, ...)
+            if any(truth and T.find(v, lambda x: T.is_field(x, "finished")) is not None for _, _, v, truth in p.decisions()):
+                continue
+            n_fin += 1
+            ended = any(cname(t["func"]).endswith("RowWriter::<'a, W>::end_row") for pos, blk, t in p.calls())
+            nocols = emptiness_of(p, lambda x: T.is_field(T.peel(x), "columns"))
+            col0 = None
+            for i, blk, v, truth in p.decisions():
+                if isinstance(v, tuple) and v[0] == "bin" and v[1] in ("Eq", "Ne") and T.is_field(T.peel(v[2]), "col") and T.is_const_int(v[3], 0):
+                    col0 = truth if v[1] == "Eq" else not truth
+            # a binary row that is only staged in the row buffer (no write_col path puts bytes into the packet) may be dropped
+            isbin = any(T.is_field(T.peel(v), "is_bin") and truth for _, _, v, truth in p.decisions())
+            staged_only = isbin and not wc_bin_writes
+            ok = ended or nocols is True or col0 is True or staged_only
+            ctx.ob("C13.err-on-packet-boundary", ok, "finish_inner can return Ok with a row pending (col != 0) that was neither ended nor refused; the ERR/terminator that follows is appended to its bytes",
+                   fn=b.path, construct="pending-row-ended", where=b.where(p.blocks[-1]),
+                   sample={"rule": "err-on-packet-boundary", "ended": ended, "no_columns": nocols, "col0": col0})
+        ctx.floor("C13.err-on-packet-boundary", "finishing paths of finish_inner", n_fin, 3)
 
     # every outbound clause of this property presupposes a faithful framing layer (one transport write site that sends the
     # whole pending packet, in order, with a correct header): C04's framing rules are evaluated here as well
